@@ -66,6 +66,14 @@ def eval(
 
 def load(path: Union[str, DDSPath, pathlib.Path]) -> Any:
     path_ = DDSPathUtils.create(path)
+    if _eval_ctx is not None and path_ in _eval_ctx.requested_paths:
+        # The evaluation in progress keeps this path: serve what it kept, not what was committed before.
+        eval_key = _eval_ctx.requested_paths[path_]
+        if not _store().has_blob(eval_key):
+            raise DDSException(
+                f"The path {path_} is loaded before the function that produces it has run in this evaluation"
+            )
+        return _store().fetch_blob(eval_key)
     key = _store().fetch_paths([path_]).get(path_)
     if key is None:
         raise DDSException(f"The store {_store()} did not return path {path_}")
